@@ -1,6 +1,6 @@
 SPECIFICATION TSpec
 CONSTANTS
-  Contacts <- TraceContacts
+  Contacts = {"c1", "c2"}
   MaxLog = 100000
   Ys = {0, 1, 2, 3}
   Bad = {"nil", "noseed", "shortseed", "longseed", "badkey", "longkey", "nokey", "self"}
